@@ -44,12 +44,16 @@ claimed = {
    ref="DESIGN.md section 6 C11"),
  "C12": dict(
    text="bounded symbolic execution of bcd.Encode / bcd.Decode: every input byte is a solver variable, the property (exact digits, error iff non-digit / nibble > 9, both round trips) is asserted against an independent reference; unsat = holds for all 256^n inputs of each length n in the bound",
-   note="bound: string length 0..8 / byte length 0..4 (quick), 0..16 / 0..8 (thorough); longer inputs outside the claim. " + TRUST,
+   note="bound: string length 0..14 / byte length 0..10 (quick), 0..32 / 0..16 (thorough); longer inputs outside the claim. " + TRUST,
    ref="DESIGN.md section 6 C12"),
  "C13": dict(
    text="ToDate, ParseDate, Date wire and JSON decoding, SystemDate and DateTime wire decoding and the encoders back are executed symbolically with the process zone a symbolic two-interval zone (offsets o1, o2 in +-14 h, transition anywhere within -14 h..+38 h of the date's 00:00 UTC), civil->instant resolution by Go's own time.Date algorithm transcribed into the model, all valid dates symbolic: the value must report and re-encode exactly the given year, month and day (date-times: exactly the transmitted fields whenever that civil time exists); a counterexample in the synthetic zone triggers a second run constrained to the real transitions of the installed tzdata and is replayed natively in that IANA zone before it is reported",
    note="bounds: years 1..9999; zones with one transition near the date (transitions >= 48 h apart), jumps < 24 h (a zone that skips a whole calendar day is exempt by the property); the tzdata table keeps the earliest and latest occurrence of each (o1, o2, tau) transition shape 1800..2040; DateTime harness uses the contract of bcd.Decode proved by C12 instead of its body (compositional); the status system date/time recombination under Z2 is not yet covered. " + TRUST,
    ref="DESIGN.md section 6 C13"),
+ "C14": dict(
+   text="for each scalar public type the encoder and the decoder are executed symbolically and composed: Date (JSON and String/ParseDate), DateTime JSON (zone abbreviation of a symbolic fixed-offset zone), HH:mm (String/HHmmFromString/JSON), SystemTime (TimeFromString/String), PIN JSON, door control state JSON, task type by name and by number (JSON and TSV), card format, the four address types (JSON, on the enumerated IPv4[:port] shapes of C15) and Weekdays JSON (all 128 day sets, decoded into an empty map and into a fresh nil map): decode(encode(v)) == v for every in-domain v, and every text of symbolic bytes up to a bounded length that is outside the domain is rejected while every text inside it yields exactly its value; for Card, Task, TimeProfile and Segments encoding/json's reflection is replaced by a havoc stub (any value of the static type, or an error) so that their hand-written decoders are explored for panics on a zero receiver",
+   note="bounds: reject-side text length <= 11 (date), 6 (HH:mm), 9 (time of day), 8 (PIN), 17 (control state), 3 digits (task numbers); JSON strings restricted to printable ASCII without escapes (the encoders' own output is asserted to be in that class); zone = any fixed offset; outside the claim: the exact round trip of Card/Task/TimeProfile/Segments (struct and map JSON inside encoding/json), Version (Sscanf), MAC (net.ParseMAC), free-text task names other than the 13 canonical ones. " + TRUST,
+   ref="DESIGN.md section 6 C14"),
  "C15": dict(
    text="the four address parsers, String and the format/parse round trip are executed symbolically (the repo's regular expressions are taken from the call sites and simulated as NFAs over symbolic bytes; netip's parsers and formatters are interpreted from their SSA) on strings assembled from an enumerated shape (digit counts of the four octets and the port) with symbolic digit characters: accepted iff the role's port rule holds, with exactly the octets and port of the text or the role's default; every string of symbolic bytes that contains no dotted quad is rejected by all four roles",
    note="bounds: quick = 5 octet shapes x port of 0..5 digits per role and no-quad strings of length 0..9; thorough = all 81 x 6 shapes and no-quad strings up to 16 bytes; ports without leading zeros; strings with a dotted quad plus other text are not constrained by the property and not asserted on. " + TRUST,
